@@ -24,8 +24,12 @@ SetupStore(s, i) ==
   IF i > Len(Setup) THEN s ELSE SetupStore(PageStep(s, EmptyRam, DefRule, Setup[i].l, Setup[i].cr).st, i + 1)
 Store0 == Clean(SetupStore(EmptyStore, 1))
 
-Ans(s, g) == { <<e[1], e[2]>> : e \in NetFast(s.trie, s.ls, g.out, g.auto) }
-Queries == { i \in 1..Len(Gens) : Gens[i].kind = "qnet" }
+(* the answer the query would give if asked right now, as a set of items *)
+Ans(s, g) ==
+  IF g.kind = "qnet" THEN { <<e[1], e[2]>> : e \in NetFast(s.trie, s.ls, g.out, g.auto) }
+  ELSE SeqToSet(ConcatWeDfs(s.trie, g.ps, 1))          \* page query: the pages of the webentity
+Result(g) == IF g.kind = "qnet" THEN { <<e[1], e[2]>> : e \in g.graph } ELSE SeqToSet(g.acc)
+Queries == { i \in 1..Len(Gens) : Gens[i].kind \in {"qnet", "qpages"} }
 
 Init ==
   /\ st = Store0 /\ ram = EmptyRam /\ gs = Gens
@@ -49,9 +53,6 @@ Spec == Init /\ [][Next]_vars
 NoFail == \A i \in 1..Len(gs) : gs[i].exc = ""
 NetBounds ==
   \A q \in Queries : gs[q].done =>
-    LET res == { <<e[1], e[2]>> : e \in gs[q].graph } IN lo[q] \subseteq res /\ res \subseteq hi[q]
+    LET res == Result(gs[q]) IN lo[q] \subseteq res /\ res \subseteq hi[q]
 (* run to completion without interleaving, the generator computes the declarative answer *)
-SoloExact ==
-  \A q \in Queries : (gs[q].done /\ \A i \in 1..Len(gs) : i # q => ~gs[i].started) =>
-    gs[q].graph = NetFast(st.trie, st.ls, Gens[q].out, Gens[q].auto)
 =============================================================================
